@@ -45,13 +45,14 @@ Nodes(in)   == {Full(t) : t \in NodeTypes(in)}
 
 \* "A implements or extends B, has a field whose type resolves to B"
 Hard(t) == Range(t.impls) \cup (IF t.ext = "" THEN {} ELSE {t.ext}) \cup {TargetId(f) : f \in Range(t.fields)}
-\* "a method of A (other than main) calls a method of a project type B different from A"
-Called(in, t) ==
-  (UNION {{TargetId(c) : c \in Range(m.calls)} : m \in {x \in Range(t.methods) : x.name # "main"}})
-    \cap (Project(in) \ {Full(t)})
-
 \* the architecture graph: edges between two nodes
-Edges(in) == UNION {{<<Full(t), b>> : b \in (Hard(t) \cup Called(in, t)) \cap Nodes(in)} : t \in NodeTypes(in)}
+Edges(in) ==
+  LET ns == Nodes(in)
+      pr == Project(in)
+      \* "a method of A (other than main) calls a method of a project type B different from A"
+      called(t) == (UNION {{TargetId(c) : c \in Range(m.calls)} : m \in {x \in Range(t.methods) : x.name # "main"}})
+                     \cap (pr \ {Full(t)})
+  IN  UNION {{<<Full(t), b>> : b \in (Hard(t) \cup called(t)) \cap ns} : t \in NodeTypes(in)}
 
 -----------------------------------------------------------------------------
 (* Merging: the quotient by the package function *)
@@ -81,7 +82,8 @@ FreeMerge(in) ==
 F(in) == [n \in Nodes(in) |-> PkgOf(in, CHOOSE t \in NodeTypes(in) : Full(t) = n)]
 QNodes(in) == {F(in)[n] : n \in Nodes(in)}
 QEdges(in) == LET f == F(in)
-              IN  {<<f[e[1]], f[e[2]]>> : e \in {x \in Edges(in) : f[x[1]] # f[x[2]]}}
+                  es == Edges(in)
+              IN  {<<f[e[1]], f[e[2]]>> : e \in {x \in es : f[x[1]] # f[x[2]]}}
 
 \* the graph the DOT is drawn from
 FinalNodes(in) == IF Merged(in) THEN QNodes(in) ELSE Nodes(in)
@@ -117,19 +119,23 @@ Shown(n) == Join(n.path \o <<n.label>>, ".")
 
 DotDiff(in, d) ==
   LET ids      == {d.nodes[i].id : i \in DOMAIN d.nodes}
-      byId(x)  == d.nodes[CHOOSE i \in DOMAIN d.nodes : d.nodes[i].id = x]
       des      == EdgeSet(d.edges)
+      merged   == Merged(in)
+      nts      == NodeTypes(in)
+      fe       == FinalEdges(in)
+      qn       == IF merged THEN QNodes(in) ELSE {}
+      inc      == {t \in nts : Included(in, Full(t))}
       \* unmerged: a type is shown by a node labelled with its name under clusters labelled with its package path
       shownAs(t) == {i \in DOMAIN d.nodes : d.nodes[i].path = t.pkg /\ d.nodes[i].label = t.name}
-      inc      == {t \in NodeTypes(in) : Included(in, Full(t))}
-      typeOf(i) == {t \in NodeTypes(in) : d.nodes[i].path = t.pkg /\ d.nodes[i].label = t.name}
-      \* the name of the graph node a drawn node stands for ("" -> unknown)
-      nameOf(i) == IF Merged(in) THEN Shown(d.nodes[i])
-                   ELSE IF typeOf(i) = {} THEN "?" ELSE Full(CHOOSE t \in typeOf(i) : TRUE)
-      known(i)  == IF Merged(in) THEN Shown(d.nodes[i]) \in QNodes(in) ELSE typeOf(i) # {}
-      idxOf(x)  == CHOOSE i \in DOMAIN d.nodes : d.nodes[i].id = x
+      typeOf   == [i \in DOMAIN d.nodes |-> {t \in nts : d.nodes[i].path = t.pkg /\ d.nodes[i].label = t.name}]
+      \* the graph node a drawn node stands for (known[i] = FALSE: none)
+      nameOf   == [i \in DOMAIN d.nodes |->
+                     IF merged THEN Shown(d.nodes[i])
+                     ELSE IF typeOf[i] = {} THEN "?" ELSE Full(CHOOSE t \in typeOf[i] : TRUE)]
+      known    == [i \in DOMAIN d.nodes |-> IF merged THEN nameOf[i] \in qn ELSE typeOf[i] # {}]
+      idxOf(x) == CHOOSE i \in DOMAIN d.nodes : d.nodes[i].id = x
       \* the drawn nodes that stand for the graph node called nm
-      drawnFor(nm) == {i \in DOMAIN d.nodes : known(i) /\ nameOf(i) = nm}
+      drawnFor(nm) == {i \in DOMAIN d.nodes : known[i] /\ nameOf[i] = nm}
   IN  IF ~d.wellformed THEN {Item("dot-malformed", "")} ELSE
       \* "draws an edge only between displayed nodes"
       {Item("dot-edge-to-undisplayed", Show(e)) : e \in {x \in des : x[1] \notin ids \/ x[2] \notin ids}} \cup
@@ -137,13 +143,13 @@ DotDiff(in, d) ==
       (IF FreeMerge(in) THEN {} ELSE
          \* ... and only edges of the graph (an edge to a filtered-out or external node must be dropped, not re-attached)
          {Item("dot-edge-not-in-graph", Show(e)) :
-            e \in {x \in des : x[1] \in ids /\ x[2] \in ids /\ known(idxOf(x[1])) /\ known(idxOf(x[2]))
-                               /\ <<nameOf(idxOf(x[1])), nameOf(idxOf(x[2]))>> \notin FinalEdges(in)}} \cup
+            e \in {x \in des : x[1] \in ids /\ x[2] \in ids /\ known[idxOf(x[1])] /\ known[idxOf(x[2])]
+                               /\ <<nameOf[idxOf(x[1])], nameOf[idxOf(x[2])]>> \notin fe}} \cup
          \* ... and all of them: the DOT is the graph restricted to the displayed nodes (see Decision_DotInduced)
          {Item("dot-edge-missing", Show(e)) :
-            e \in {x \in FinalEdges(in) : drawnFor(x[1]) # {} /\ drawnFor(x[2]) # {} /\
+            e \in {x \in fe : drawnFor(x[1]) # {} /\ drawnFor(x[2]) # {} /\
                                            ~\E a \in drawnFor(x[1]), b \in drawnFor(x[2]) : <<d.nodes[a].id, d.nodes[b].id>> \in des}} \cup
-         (IF ~Merged(in)
+         (IF ~merged
           THEN \* "shows each included type once under its package path"
                {Item("dot-type-missing", Full(t)) : t \in {x \in inc : shownAs(x) = {}}} \cup
                {Item("dot-type-repeated", Full(t)) : t \in {x \in inc : Cardinality(shownAs(x)) > 1}} \cup
@@ -154,9 +160,9 @@ DotDiff(in, d) ==
                \* only, so for merged graphs a drawn node must be an included package, drawn once;
                \* which of the included packages are drawn is not judged.
                {Item("dot-node-not-an-included-package", Shown(d.nodes[i])) :
-                  i \in {j \in DOMAIN d.nodes : ~(known(j) /\ Included(in, Shown(d.nodes[j])))}} \cup
+                  i \in {j \in DOMAIN d.nodes : ~(known[j] /\ Included(in, nameOf[j]))}} \cup
                {Item("dot-package-repeated", Shown(d.nodes[i])) :
-                  i \in {j \in DOMAIN d.nodes : \E k \in DOMAIN d.nodes : k # j /\ Shown(d.nodes[k]) = Shown(d.nodes[j])}}))
+                  i \in {j \in DOMAIN d.nodes : \E k \in DOMAIN d.nodes : k # j /\ nameOf[k] = nameOf[j]}}))
 \* Decision_DotInduced: "draws an edge only between displayed nodes" is read as: the edges drawn
 \* are the edges of the (merged) graph whose two ends are displayed - none that is not an edge of
 \* the graph (an edge to a filtered-out or external node is dropped, not re-attached), and none of
